@@ -147,7 +147,7 @@ def run(tier, seed, replay=None):
     def nontriv(t):
         return len(t["events"]) >= 2
     return EL.standard_run(
-        PID, tier, seed, replay, MC, corpus, nontriv, extra=droop_lemma,
+        PID, tier, seed, replay, MC, corpus, nontriv, extra=droop_lemma, wide={"rules": ("STV", "STV", "IRV"), "coalition": True},
         rule_text="role 1: the DPC invariant (every candidate subset S, solid weight read off the initial profile) checked by TLC on every "
                   "terminal state of the Droop model: all profiles of <=K distinct rankings of 3 candidates x m x both modes x both "
                   "transfers x every random outcome; role 2: the same invariant evaluated by TLC on the final state of every validated "
